@@ -88,6 +88,12 @@ func (h *Helper) Oblige(text string, ok bool, detail string) {
 	h.it.oblige(h.fn, h.in, "CTR", text, ok, func() string { return detail })
 }
 
+// ObligeAt records a CTR obligation anchored at another instruction of the same function (e.g. the
+// condition of the loop whose entry edge is being crossed).
+func (h *Helper) ObligeAt(at ssa.Instruction, text string, ok bool, detail string) {
+	h.it.oblige(h.fn, at, "CTR", text, ok, func() string { return detail })
+}
+
 func (h *Helper) Depth() int { return h.it.finfo[h.f].depth }
 
 // Int returns the linear form of an integer value of the current frame.
